@@ -14,8 +14,8 @@
  *      by that many cells at its end (xtend + set_size): newCols[k] <= size(k) <= max(k).
  * Both loops of the region are unwound completely (at most CAPO own vectors of at most WO nonzeros; --unwinding-assertions).
  *
- * Storage model as in unit_ce.cpp / lp_mirror: flat cell arrays, vector v of a file = cells [v*3, v*3+3);
- * SVector index()/value() are the real bodies (sliced).  computeScaleExp is a stub: an arbitrary bounded exponent per own vector
+ * Storage model as in unit_ce.cpp / lp_mirror: each matrix copy ("file") is a flat array of Nonzero cells, vector v = cells
+ * [v*MATW, v*MATW+MATW), size[v] in use.  SVector index()/value() are the real bodies (sliced).  computeScaleExp is a stub: an arbitrary bounded exponent per own vector
  * (ghost array E, indexed by the number of the vector it is called for); its real body: units scaler_scalar / lp_addscale. */
 #include "verif.h"
 #include "ledger.h"
@@ -39,7 +39,7 @@
 
 
 extern "C" {
-struct nzc { R val; int idx; int pad_; };
+struct nzc { R val; int idx; int pad_; };   /* Nonzero<R> {val, idx} + explicit tail padding (C and C++ front ends must agree on the size) */
 extern const int* gp_E; extern int g_cse_calls;
 }
 enum SPxSense { MAXIMIZE = 1, MINIMIZE = -1 };
@@ -47,10 +47,10 @@ enum SPxSense { MAXIMIZE = 1, MINIMIZE = -1 };
 #define SVectorBase SVecF
 template <class T> struct SVecF
 {
-   nzc* elem0; int* size0; int vno; int stride;
+   nzc* elem0; int* size0; int vno;     /* the file's cell array and size array; the vector's number */
 #define m_elem (elem0 + vno * MATW)
    int size() const { return size0[vno]; }
-   int max() const { return stride; }
+   int max() const { return MATW; }
    void set_size(int s) { size0[vno] = s; }
    int index(int n) const
    {
@@ -164,6 +164,7 @@ struct H : LP
    }
 };
 
+/* copy a file between the contract's parallel arrays and the cell array (straight-line) */
 #define CELL_IN(k) cells[k].idx = fi[k]; cells[k].val = fv[k];
 #define CELL_OUT(k) fi[k] = cells[k].idx; fv[k] = cells[k].val;
 #define OWN_CELLS(S) S(0) S(1) S(2) S(3) IF_W3(S(4) S(5)) IF_CAPO3(S(2 * MATW) S(2 * MATW + 1) IF_W3(S(8)))
@@ -172,7 +173,16 @@ static inline void own_in(nzc* cells, const int* fi, const R* fv) { OWN_CELLS(CE
 static inline void own_out(const nzc* cells, int* fi, R* fv) { OWN_CELLS(CELL_OUT) }
 static inline void cross_in(nzc* cells, const int* fi, const R* fv) { CROSS_CELLS(CELL_IN) }
 static inline void cross_out(const nzc* cells, int* fi, R* fv) { CROSS_CELLS(CELL_OUT) }
-#define INIT_VIEW(pool, i, mem, size, w) pool[i].elem0 = mem; pool[i].size0 = size; pool[i].vno = (i); pool[i].stride = (w);
+#define INIT_VIEW(pool, i, mem, size) pool[i].elem0 = mem; pool[i].size0 = size; pool[i].vno = (i);
+
+static inline void set_own_dims(H& h, int n)
+{
+#ifdef NEWROW
+   h.sh.nr = n; h.sh.left.dimen = n; h.sh.right.dimen = n; h.sh.robj.dimen = n; h.LPRowSetBase<R>::scaleExp.thesize = n;
+#else
+   h.sh.nc = n; h.sh.up.dimen = n; h.sh.low.dimen = n; h.sh.obj.dimen = n; h.LPColSetBase<R>::scaleExp.thesize = n;
+#endif
+}
 
 /* om/os: own file (CAPO vectors of WO cells), xm/xs: cross file (CAPX vectors of WX cells); a, b, o: dense data of the own set
  * (rows: lhs, rhs, row objective; columns: upper, lower, objective); cnt = newCols / newRows; E = exponents computeScaleExp returns */
@@ -182,11 +192,11 @@ extern "C" void w_add(int* om_i, R* om_v, int* os, int* xm_i, R* xm_v, int* xs, 
    VIN("nown0", nown0); VIN("nown", nown); VIN("ncross", ncross); VIN("scale", scale);
    VIN_ARR8("E", E, nown); VIN_ARR8("ownexp", ownexp, nown); VIN_ARR8("crossexp", crossexp, ncross); VIN_ARR8("cnt", cnt, ncross);
    VIN_ARR8("os", os, nown); VIN_ARR8("om_i", om_i, CAPO * WO); VIN_ARR8("om_v", om_v, CAPO * WO);
-   H h; Scaler sc; SVecF<R> opool[CAPO], xpool[CAPX]; nzc ocells[CAPO * WO], xcells[CAPX * WX]; DataArray<int> cntarr;
+   H h; Scaler sc; SVecF<R> opool[CAPO], xpool[CAPX]; nzc ocells[CAPO * MATW], xcells[CAPX * MATW]; DataArray<int> cntarr;
    R unused[1];
    own_in(ocells, om_i, om_v); cross_in(xcells, xm_i, xm_v);
-   INIT_VIEW(opool, 0, ocells, os, WO) INIT_VIEW(opool, 1, ocells, os, WO) IF_CAPO3(INIT_VIEW(opool, 2, ocells, os, WO))
-   INIT_VIEW(xpool, 0, xcells, xs, WX) INIT_VIEW(xpool, 1, xcells, xs, WX)
+   INIT_VIEW(opool, 0, ocells, os) INIT_VIEW(opool, 1, ocells, os) IF_CAPO3(INIT_VIEW(opool, 2, ocells, os))
+   INIT_VIEW(xpool, 0, xcells, xs) INIT_VIEW(xpool, 1, xcells, xs)
    h.bind(); h.lp_scaler = &sc; h.thesense = MAXIMIZE; h._isScaled = true;
    /* the dense vectors of the cross set are not touched by the region: zero-dimensional (any access is a bounds violation) */
    h.sh.low.val = unused; h.sh.low.dimen = 0; h.sh.up.val = unused; h.sh.up.dimen = 0; h.sh.obj.val = unused; h.sh.obj.dimen = 0;
@@ -205,6 +215,13 @@ extern "C" void w_add(int* om_i, R* om_v, int* os, int* xm_i, R* xm_v, int* xs, 
    cntarr.data = cnt; cntarr.thesize = ncross; cntarr.themax = ncross;
    h.cnt_ = &cntarr; h.oldOwn_ = nown0; h.oldCross_ = ncross; h.scale = scale;
    gp_E = E;
-   h.body();
+   /* ONE call of the region, written as a case split over the (small) numbers of own vectors so that CBMC's constant propagation
+      sees concrete loop bounds and vector numbers in each case: in every branch the dimensions are re-assigned as the literals the
+      branch condition says they equal; the branches cover 0 <= nown0 <= nown <= CAPO completely (the last one is unreachable) */
+#define RUN(N, N0) else if(nown == (N) && nown0 == (N0)) { set_own_dims(h, (N)); h.oldOwn_ = (N0); h.body(); }
+   if(0) {}
+   RUN(0, 0) RUN(1, 0) RUN(1, 1) RUN(2, 0) RUN(2, 1) RUN(2, 2)
+   IF_CAPO3(RUN(3, 0) RUN(3, 1) RUN(3, 2) RUN(3, 3))
+   else __CPROVER_assert(0, "case split over the own dimensions is complete");
    own_out(ocells, om_i, om_v); cross_out(xcells, xm_i, xm_v);
 }
